@@ -4,7 +4,7 @@ concentrate on (facets are paraphrases of the property statement only; nothing f
 import json, sys
 pid = sys.argv[1]; wt = sys.argv[2]
 p = next(json.loads(l) for l in open('/verif/properties.jsonl') if json.loads(l)['id'] == pid)
-fac = json.load(open('/verif/lib/facets2.json'))[pid]
+fac = json.load(open(sys.argv[3] if len(sys.argv) > 3 else '/verif/lib/facets2.json'))[pid]
 txt = json.dumps({k: p[k] for k in ('id', 'title', 'statement', 'quantifier', 'why_tests_cant', 'anchors')}, indent=1)
 print(f"""You are helping to evaluate verification tooling for the Rust library arkworks-rs/algebra. You have your OWN scratch git worktree of the repository at {wt} (work ONLY there; never touch /repo or /verif, and do not read anything under /verif). The sandbox is offline: always pass `--offline` to cargo (CARGO_NET_OFFLINE=true); the curve crates under curves/ are outside the cargo workspace (each builds on its own, as a path dependency of a standalone crate with an empty `[workspace]` table and a Cargo.lock copied from the repository root). The machine is shared with other jobs: pass `-j 6` to every cargo command.
 
